@@ -78,7 +78,7 @@ Proof.
     rewrite Nat.eqb_refl in H. discriminate.
   - intros H a x b y c E. apply false_true_False. intros Hb.
     destruct x as [|cn k| | | | |]; try discriminate.
-    destruct k as [| | | | | | | |mm| | | |?|?| | |]; try discriminate. destruct mm; try discriminate.
+    destruct k as [| | | | | | | |mm| | | |?|?| | | |]; try discriminate. destruct mm; try discriminate.
     simpl in Hb. apply is_conn_eq in Hb. subst. eapply H; eauto.
 Qed.
 
@@ -316,6 +316,21 @@ Lemma example_ok :
   c07_ok (filter is_obs example_trace) [([(true, true, false)], true); ([], true)] = true
   /\ accepts (filter is_obs example_trace) = true.
 Proof. split; vm_compute; reflexivity. Qed.
+
+(* shutdown while a CONNECT exchange is parked in its request modifier: the tunnel is still
+   set up, its 200 written, and the connection closed only when the tunnel ends *)
+Definition example_connect : list label :=
+  [Accept 0; Conn 0 Register; Conn 0 Enter; Conn 0 ReqModStart;
+   CloseCall; CloseSignal; ClosingSeen; CloseLock;
+   Conn 0 RTStart; Conn 0 (RTEnd true); Conn 0 ResModStart; Conn 0 CResModEnd;
+   Conn 0 (RespStatus false); Conn 0 (WriteHead true); Conn 0 WriteDone;
+   Conn 0 SockClose; Conn 0 Done; CloseReturn].
+
+Lemma example_connect_ok :
+  (exists s, run init example_connect = Some s) /\
+  c07_ok (filter is_obs example_connect) [([(true, true, false)], true)] = true /\
+  accepts (filter is_obs example_connect) = true.
+Proof. split; [eexists; vm_compute; reflexivity|split; vm_compute; reflexivity]. Qed.
 
 (* the second way an accepted connection outlives Close: accepted while
    Close is inside conns.Wait(), its handler blocks on connsMu *)
